@@ -17,7 +17,7 @@ Deliverables, for each change, in the directory %(wt)s/SEEDED/<property id>-<a|b
   patch.diff   - `git diff` of exactly that one change against the worktree's HEAD (apply/revert each change separately: deliver independent patches, each against a clean tree)
   demo.py      - a small self-contained program (run as `PYTHONPATH=<tree> /venv/bin/python demo.py`) that exits 0 on the unchanged tree and exits 1 (printing what went wrong) on the tree with the patch applied, demonstrating the property violation through the project's public behaviour
   meta.json    - {"property": "<id>", "summary": "<one sentence: what the change does>", "needs": "<what specific input / sequence / configuration / interleaving is needed for it to manifest>", "files": [...], "tests_run": "<the pytest command lines you ran and their pass/fail counts>"}
-Before finishing, verify for each patch from a clean tree (`git stash` or `git checkout -- .`): patch applies with `git apply`, demo.py exits 1 with it and 0 without it, test suite unchanged. Leave the worktree clean (no applied patch) at the end, with only the SEEDED/ directory added (untracked). Final answer: a short list of the changes (property, summary, needs) and anything you could not do.
+Before finishing, verify for each patch from a clean tree (`git stash` or `git checkout -- .`): patch applies with `git apply`, demo.py exits 1 with it and 0 without it, test suite unchanged. Never use `git stash` (the stash is shared between worktrees of other people): use `git diff > file`, `git checkout -- .` and `git apply` instead. Leave the worktree clean (no applied patch) at the end, with only the SEEDED/ directory added (untracked). Final answer: a short list of the changes (property, summary, needs) and anything you could not do.
 """ % {"wt": wt, "n": "TWO different changes" })
 for i in ids:
     p = props[i]
